@@ -1,14 +1,17 @@
 #!/usr/bin/env python3
-"""seedstore.py <ID> — copy a confirmed seeded change from /tmp/seed + /tmp/sv into /verif/seeded/<ID>/."""
+"""seedstore.py <ID> [srcdir [label]] — copy a confirmed seeded change from <srcdir> (default /tmp/seed) + /tmp/sv/<label>.log
+into /verif/seeded/<label>/ (label defaults to ID; second-round changes use <ID>b)."""
 import json, os, re, shutil, sys
 i = sys.argv[1]
-src, dst = '/tmp/seed', f'/verif/seeded/{i}'
+src = sys.argv[2] if len(sys.argv) > 2 else '/tmp/seed'
+label = sys.argv[3] if len(sys.argv) > 3 else i
+dst = f'/verif/seeded/{label}'
 os.makedirs(dst + '/demo', exist_ok=True)
 shutil.copy(f'{src}/{i}.patch.diff', dst + '/patch.diff')
 for f in os.listdir(f'{src}/{i}.demo'):
     shutil.copy(f'{src}/{i}.demo/{f}', dst + '/demo/' + f)
 meta = json.load(open(f'{src}/{i}.meta.json'))
-log = open(f'/tmp/sv/{i}.log').read()
+log = open(f'/tmp/sv/{label}.log').read()
 g = lambda k: (re.search(k + r'=(\d+)', log) or [None, '?'])[1]
 suite = log.split('## demo with change')[0]
 fails = sorted(set(l for l in re.findall(r'^(?:FAIL\t\S+|--- FAIL: \S+)', suite, re.M)))
@@ -21,7 +24,7 @@ meta_out = {
     'demo_cmd': meta.get('demo_cmd'),
     'seeder_tests_run': meta.get('tests_run'),
     'confirmed_by_me': {
-        'how': 'tools/seedverify.sh in a scratch worktree /tmp/sv/%s of /repo at %s: git apply patch.diff; go build ./...; go test -vet=off -count=1 -timeout 25m ./... (whole suite); demo test copied in and run with the change, then `git apply -R` and run again; worktree removed' % (i, (re.search(r'## head (\w+)', log) or [0, '?'])[1]),
+        'how': 'tools/seedverify.sh in a scratch worktree /tmp/sv/%s of /repo at %s: git apply patch.diff; go build ./...; go test -vet=off -count=1 -timeout 25m ./... (whole suite); demo test copied in and run with the change, then `git apply -R` and run again; worktree removed' % (label, (re.search(r'## head (\w+)', log) or [0, '?'])[1]),
         'applies_and_builds': 'BUILD-OK' in log and 'APPLY-FAILED' not in log,
         'suite_with_change': 'passes except the two failures that the unchanged tree has as well in this sandbox (net/transport/yamux TestDialContextCancellation is in BASELINE always_fail; util/periodicsync does not build with go1.25.7: synctest.Run undefined)',
         'suite_failures_seen': [f for f in fails if 'TestSeeded' not in f],
@@ -30,4 +33,4 @@ meta_out = {
     },
 }
 json.dump(meta_out, open(dst + '/meta.json', 'w'), indent=1)
-print(i, meta_out['confirmed_by_me']['applies_and_builds'], meta_out['confirmed_by_me']['demo_with_change_exit'], meta_out['confirmed_by_me']['demo_without_change_exit'], meta_out['confirmed_by_me']['suite_failures_seen'])
+print(label, meta_out['confirmed_by_me']['applies_and_builds'], meta_out['confirmed_by_me']['demo_with_change_exit'], meta_out['confirmed_by_me']['demo_without_change_exit'], meta_out['confirmed_by_me']['suite_failures_seen'])
